@@ -494,11 +494,41 @@ def execute(sched, scratch, seed=None, i=None):
                 sets['transitions'].add(prev + '>' + step['kind'])
             prev = step['kind']
             for inv, pclass, change, witness in check_step(sched, step, pre, post, r):
+                sig = {'command': step['variant'].split(':')[0], 'file': pclass, 'change': change.split(' ')[0]}
+                if step['kind'] == 'init' and step.get('fault'):
+                    sig['under'] = step['fault']['kind']
                 violations.append({'invariant': inv,
-                                   'signature': {'command': step['variant'].split(':')[0], 'file': pclass,
-                                                 'change': change.split(' ')[0]},
-                                   'witness': 'step %d of %d: %s' % (j + 1, len(sched['steps']), witness),
+                                   'signature': sig,
+                                   'witness': 'step %d of %d%s: %s' % (j + 1, len(sched['steps']), (' under %r' % step['fault']) if step.get('fault') else '', witness),
                                    'schedule': {'property': ID, 'seed': seed, 'run': i, 'sched': sched}})
+            if step['kind'] == 'init' and sched.get('sweep_init') and not step.get('fault') and r.effects:
+                # init under faults: every effect of the run just seen fails once (errno by kind) and the process dies once there,
+                # from the same starting tree; `keeps each of them (settings may only gain appended lines)` has no fair-weather clause
+                for k_, e_ in enumerate(r.effects):
+                    en = {'open': 'EACCES', 'write': 'ENOSPC', 'close': 'EIO', 'rename': 'EACCES', 'mkdir': 'ENOSPC'}.get(e_['k'], 'EIO')
+                    for fault in ({'kind': 'oserror', 'at': k_, 'errno': en, 'cut': 'half'}, {'kind': 'crash', 'at': k_, 'cut': 'half'},
+                                  {'kind': 'oserror-from', 'at': k_, 'errno': 'ENOSPC'}):
+                        util.restore(root, pre)
+                        r2 = proc.run_cli(root, argv, dict(plan, fault=fault, tty=dict(step['tty'], answers=list(step['tty'].get('answers') or []))),
+                                          cwd=step['cwd'], ctl_parent=ctlp)
+                        post2 = util.snapshot(root)
+                        bad2 = util.audit(pre, post2, r2.events)
+                        if bad2:
+                            raise proc.HarnessError('effect seam incomplete: %r after %r under %r' % (bad2[:5], step['argv'], fault))
+                        count['sim_processes'] += 1
+                        count['fs_effects'] += len(r2.effects)
+                        if r2.fired:
+                            count['fired.init-' + fault['kind']] = count.get('fired.init-' + fault['kind'], 0) + 1
+                        log.append(['init-fault', j, fault, r2.exit, util.tree_digest(post2)])
+                        sets['post_states'].add(util.tree_digest(post2))
+                        fstep = dict(step, fault=fault)
+                        for inv, pclass, change, witness in check_step(sched, fstep, pre, post2, r2):
+                            violations.append({'invariant': inv,
+                                               'signature': {'command': 'init', 'file': pclass, 'change': change.split(' ')[0], 'under': fault['kind']},
+                                               'witness': 'step %d of %d under %r: %s' % (j + 1, len(sched['steps']), fault, witness),
+                                               'schedule': {'property': ID, 'seed': seed, 'run': i,
+                                                            'sched': dict(sched, steps=sched['steps'][:j] + [fstep], sweep_init=False)}})
+                util.restore(root, post)
             pre = post
     finally:
         shutil.rmtree(scratch, ignore_errors=True)
@@ -535,6 +565,7 @@ def run_one(seed, i, tier, scratch):
     sched = gen_schedule(rng, i, tier)
     if rng.random() < (0.5 if tier == 'thorough' else 0.25):
         add_faults(rng, sched)
+    sched['sweep_init'] = rng.random() < 0.5
     res = execute(sched, scratch, seed, i)
     if i < 3:
         res['samples'] = [{'seed': seed, 'run': i, 'world_files': sorted(sched['world']),
@@ -573,5 +604,8 @@ def coverage(count, sets, samples, tier):
         'faults_fired': {k[6:]: v for k, v in count.items() if k.startswith('fired.')},
         'exits': {k[5:]: v for k, v in count.items() if k.startswith('exit.')},
         'fault_configuration': 'a quarter of the histories (thorough: half) carry one crash/OSError/KeyboardInterrupt or one read fault '
-                               'inside a read-only command; the oracle is the same (a fault cannot license a write elsewhere); counted above',
+                               'inside a read-only command; the oracle is the same (a fault cannot license a write elsewhere); counted above.  In half of the '
+                               'histories every `init` step is additionally re-run from the same starting tree once per (effect of its fault-free trace) x '
+                               '(that effect fails with an errno legal for its kind | the process dies there with half of the in-flight file written | the disk '
+                               'stays full from there on): the INIT clause is judged after each',
     }
